@@ -1,4 +1,4 @@
-From Tetl Require Import Lib.Base C06a.Instances C03.Trace C03.Model C03.ModelOwn C03.ModelAgg C03.ModelMem C03.Spec C03.ModelOwnT C03.SpecOwnT.
+From Tetl Require Import Lib.Base C06a.Instances C03.Trace C03.Model C03.ModelOwn C03.ModelAgg C03.ModelMem C03.Spec C03.ModelOwnT C03.SpecOwnT C03.ModelSize.
 Require Extraction.
 Require Import ExtrOcamlBasic.
 Extraction Language OCaml.
@@ -6,4 +6,5 @@ Extraction "C03_model.ml" wire_anchor wf_trace all_dead monitor run_case self_ch
   own_run_case own_self_checks own_trace own_spec_verdict storage_wf trk_of
   own_run_case_x own_self_checks_x own_trace_x own_spec_verdict_x
   agg_run_case agg_self_checks agg_count_self
-  uninit arun alive.
+  uninit arun alive
+  size_bits size_cast crun_code crun_ideal cfinal cobs alive_of cst0.
